@@ -217,3 +217,6 @@ m('indexed_axes_ellipsis_slice_start', ['C12'], '_base/indices.py',
   note='systematic mutant: P.T @ P with (..., array) is no longer simplified (map unchanged)')
 m('reshape_negative_sizes_accepted', ['C13'], '_base/axes.py',
   'if any(_ < -1 for _ in shape):', 'if any(_ < -2 for _ in shape):', note='systematic mutant: (-2, -3) accepted for 6 elements')
+m('transpose_index_rule_two_leaf_shapes', ['C12'], '_base/indices.py',
+  '        if len(shapes) > 1:\n            raise NoReduction', '        if len(shapes) > 2:\n            raise NoReduction',
+  note='systematic mutant: the multiplicity diagonal of one leaf shape is applied to a pytree with two leaf shapes')
